@@ -91,6 +91,9 @@ def sd_to_doc(rng, sd):
     osn = [f"os_{rng.choice('abcdef')}{i}" for i in range(sd["nos"])]
     srvn = [f"srv_{rng.choice('abcdef')}{i}" for i in range(sd["nsrv"])]
     procn = [f"proc_{rng.choice('abcdef')}{i}" for i in range(sd["nproc"])]
+    if rng.random() < 0.15 and sd["nos"] >= 2:
+        # an OS name contained in another one (win / darwin / win10)
+        osn = (["win", "darwin", "win10"] if rng.random() < 0.5 else ["os1", "os10", "xos1"])[:sd["nos"]]
     if rng.random() < 0.25:
         # names "can be anything": words that mean something elsewhere (an OS is never called none: that spelling IS
         # the documented "any OS" of exploits)
